@@ -3256,6 +3256,10 @@ class GateInds(GateContract):
             return args[0]  # a reshape only: same gate
         if name == "__isinstance__" and args[1] == "PArray":
             return isinstance(args[0], GArr) and args[0].param
+        if name == "__isinstance__" and args[1] == "str" and isinstance(args[0], SeqL):
+            # the labels are given as a sequence here; the single-string spelling (normalised to a 1-tuple on entry)
+            # is exercised by the bounded driver only
+            return False
         if name == "ar.conj" and isinstance(args[0], GArr):
             return GArr(args[0].name, not args[0].conj, args[0].param)
         if name == ".copy" and isinstance(args[0], GArr):
